@@ -161,35 +161,35 @@ macro_rules! ooq_add_instance {
     };
 }
 
-// @verif id=OOQ.add.a props=C01,C04,C10 tier=quick
+// @verif id=OOQ.add.a props=C01,C04 tier=quick
 // @functions OutOfOrderQueue::add_remove, stream_rx::ooq_slot_is_default, OoqMessage::len_bytes
 // @bounds K = 3 slots, empty queue, in-order DATA (2 symbolic bytes) at offset 0
 // @asserts stored into slot 0 only; Consumed{1, 2}; filled_front = 1; counters follow; invariant
 // @unwind 7
 ooq_add_instance!(ooq_add_k3_empty_inorder, 3, 0b000, 0, false, 2);
 
-// @verif id=OOQ.add.b props=C01,C04,C10 tier=quick
+// @verif id=OOQ.add.b props=C01,C04 tier=quick
 // @functions OutOfOrderQueue::add_remove
 // @bounds K = 3, empty queue, out-of-order DATA at offset 1
 // @asserts stored into slot 1 only; Consumed{0, 0}; filled_front stays 0
 // @unwind 7
 ooq_add_instance!(ooq_add_k3_empty_ooo, 3, 0b000, 1, false, 2);
 
-// @verif id=OOQ.add.c props=C01,C04,C10 tier=quick
+// @verif id=OOQ.add.c props=C01,C04 tier=quick
 // @functions OutOfOrderQueue::add_remove
 // @bounds K = 3, slots 1 and 2 held out of order, DATA at offset 0 fills the gap
 // @asserts Consumed{3, total bytes}; filled_front = 3; stored payloads untouched
 // @unwind 7
 ooq_add_instance!(ooq_add_k3_gapfill_all, 3, 0b110, 0, false, 2);
 
-// @verif id=OOQ.add.d props=C01,C04,C10 tier=quick
+// @verif id=OOQ.add.d props=C01,C04 tier=quick
 // @functions OutOfOrderQueue::add_remove
 // @bounds K = 3, slot 1 held, duplicate DATA for slot 1 (offset 1)
 // @asserts AlreadyPresent; nothing overwritten (stored bytes compared with the ghost)
 // @unwind 7
 ooq_add_instance!(ooq_add_k3_duplicate, 3, 0b010, 1, false, 1);
 
-// @verif id=OOQ.add.e props=C01,C04,C10 tier=quick
+// @verif id=OOQ.add.e props=C01,C04 tier=quick
 // @functions OutOfOrderQueue::add_remove
 // @bounds K = 3, slot 0 consumed-but-unflushed (filled_front = 1) and slot 2 held; DATA at offset 0 lands in slot 1 and completes the queue
 // @asserts Consumed{2, bytes of slots 1..=2}; filled_front = 3
@@ -203,28 +203,28 @@ ooq_add_instance!(ooq_add_k3_ff1_completes, 3, 0b101, 0, false, 2);
 // @unwind 7
 ooq_add_instance!(ooq_add_k3_full, 3, 0b111, 0, false, 0);
 
-// @verif id=OOQ.add.g props=C01,C03,C04,C10 tier=quick
+// @verif id=OOQ.add.g props=C01,C03,C04 tier=quick
 // @functions OutOfOrderQueue::add_remove
 // @bounds K = 3, slot 0 filled (filled_front = 1), FIN at offset 1 (out of order: one data packet still missing before it)
 // @asserts EOF stored in its own sequence slot (slot 2), Consumed{0,0}: end-of-stream is not released before the missing data
 // @unwind 7
 ooq_add_instance!(ooq_add_k3_fin_out_of_order, 3, 0b001, 1, true, 2);
 
-// @verif id=OOQ.add.h props=C01,C03,C04,C10 tier=quick
+// @verif id=OOQ.add.h props=C01,C03,C04 tier=quick
 // @functions OutOfOrderQueue::add_remove
 // @bounds K = 3, empty, FIN in order at offset 0
 // @asserts EOF stored in slot 0, Consumed{1, 0}
 // @unwind 7
 ooq_add_instance!(ooq_add_k3_fin_in_order, 3, 0b000, 0, true, 2);
 
-// @verif id=OOQ.add.i props=C01,C04,C10 tier=thorough
+// @verif id=OOQ.add.i props=C01,C04 tier=thorough
 // @functions OutOfOrderQueue::add_remove
 // @bounds K = 4, slots 1 and 3 held, DATA at offset 0
 // @asserts Consumed{2, ..}; filled_front = 2; slot 3 stays out of order
 // @unwind 7
 ooq_add_instance!(ooq_add_k4_partial_run, 4, 0b1010, 0, false, 2);
 
-// @verif id=OOQ.add.j props=C01,C04,C10 tier=thorough
+// @verif id=OOQ.add.j props=C01,C04 tier=thorough
 // @functions OutOfOrderQueue::add_remove
 // @bounds K = 4, filled_front = 2 (slots 0,1), DATA at offset 1 -> slot 3
 // @asserts Consumed{0,0}
@@ -323,7 +323,7 @@ fn send_front_step<const K: usize>(pat: u32, eof_slot: usize) {
     std::mem::forget(q);
 }
 
-// @verif id=OOQ.send.a props=C01,C03,C04,C10 tier=quick
+// @verif id=OOQ.send.a props=C01,C03,C04 tier=quick
 // @functions OutOfOrderQueue::send_front_if_fits, OutOfOrderQueue::filled_front_bytes
 // @bounds K = 3, slots 0,1 in order and slot... pattern 0b011 (filled_front = 2); any window: usize; receiver accepts or refuses
 // @asserts releases slot 0 exactly (bytes identical), only if it fits and the receiver accepts; everything else shifts by one in order; refused release changes nothing
@@ -334,7 +334,7 @@ fn ooq_send_front_k3_two_in_order() {
     send_front_step::<3>(0b011, usize::MAX);
 }
 
-// @verif id=OOQ.send.b props=C01,C03,C04,C10 tier=quick
+// @verif id=OOQ.send.b props=C01,C03,C04 tier=quick
 // @functions OutOfOrderQueue::send_front_if_fits
 // @bounds K = 3, pattern 0b101 (one in-order message, one held out of order behind a gap)
 // @asserts as OOQ.send.a; the out-of-order message is NOT released
@@ -344,7 +344,7 @@ fn ooq_send_front_k3_gap() {
     send_front_step::<3>(0b101, usize::MAX);
 }
 
-// @verif id=OOQ.send.c props=C01,C03,C10 tier=quick
+// @verif id=OOQ.send.c props=C01,C03 tier=quick
 // @functions OutOfOrderQueue::send_front_if_fits
 // @bounds K = 3, pattern 0b110: nothing in order (slot 0 missing)
 // @asserts nothing released whatever the window
@@ -362,7 +362,7 @@ fn ooq_send_front_k3_nothing_in_order() {
     std::mem::forget(q);
 }
 
-// @verif id=OOQ.send.d props=C03,C01,C10 tier=quick
+// @verif id=OOQ.send.d props=C03,C01 tier=quick
 // @functions OutOfOrderQueue::send_front_if_fits
 // @bounds K = 3, pattern 0b011 with EOF in slot 1 (data then end-of-stream, both in order)
 // @asserts the data message in slot 0 is released first; EOF moves to slot 0 (released only afterwards)
@@ -416,14 +416,14 @@ macro_rules! ooq_sack_instance {
     };
 }
 
-// @verif id=OOQ.sack.a props=C04,C10 tier=quick
+// @verif id=OOQ.sack.a props=C04 tier=quick
 // @functions OutOfOrderQueue::selective_ack, SelectiveAck::new, OutOfOrderQueue::is_empty
 // @bounds K = 5 slots, pattern 0b10100 (two packets held behind gaps)
 // @asserts Some; bit i <=> slot filled_front+1+i occupied (first 8 bits checked individually, the other 56 must be 0), 64 bits, 8 bytes
 // @unwind 10
 ooq_sack_instance!(ooq_sack_k5_two_held, 5, 0b10100);
 
-// @verif id=OOQ.sack.b props=C04,C10 tier=quick
+// @verif id=OOQ.sack.b props=C04 tier=quick
 // @functions OutOfOrderQueue::selective_ack
 // @bounds K = 5, patterns 0b00000 (empty) and 0b00011 (only in-order data awaiting flush)
 // @asserts None: nothing is held out of order
@@ -438,14 +438,14 @@ fn ooq_sack_k5_nothing_out_of_order() {
     }
 }
 
-// @verif id=OOQ.sack.c props=C04,C10 tier=quick
+// @verif id=OOQ.sack.c props=C04 tier=quick
 // @functions OutOfOrderQueue::selective_ack, SelectiveAck::new
 // @bounds K = 5, pattern 0b11101 (filled_front = 1, hole at slot 1, three held)
 // @asserts bits 0..=2 set, nothing else
 // @unwind 10
 ooq_sack_instance!(ooq_sack_k5_ff1_three_held, 5, 0b11101);
 
-// @verif id=OOQ.sack.d props=C04,C10 tier=thorough
+// @verif id=OOQ.sack.d props=C04 tier=thorough
 // @functions OutOfOrderQueue::selective_ack, SelectiveAck::new
 // @bounds K = 8, pattern 0b10110100
 // @asserts as OOQ.sack.a
